@@ -313,7 +313,7 @@ def _diff(a, b, path=""):
 
 
 def obligations(tier):
-    n = 4 if tier == "quick" else 5
+    n = 3 if tier == "quick" else 4
     mk = lambda kinds: (lambda X: h_history(X, n, kinds))  # noqa: E731
     npairs = lambda kinds: sum(len(FIELDS[k]) for k in kinds)  # noqa: E731
     reach = ["end", "backup-taken", "second-backup-ignored", "reverted", "copied", "copied-with-backup", "modified-true", "backup-but-unmodified"]
